@@ -69,9 +69,15 @@ def check_valence(graph, explicit_h=False, stats=None):
             if float(order or 0) == 0:
                 continue
             if graph.nodes[nb].get("element") == "H":
-                nh += 1
                 if order != 1:
                     out.append("bond %r-%r to hydrogen has order %r" % (node, nb, order))
+                own, other = data.get("fragid"), graph.nodes[nb].get("fragid")
+                if isinstance(own, list) and isinstance(other, list) and other and not set(other) & set(own):
+                    # a hydrogen that is a fragment of its own (an end group bonded through a descriptor) is a
+                    # bonded partner, not a filled-in hydrogen: it is kept, and the atom is completed around it
+                    heavy += 1.0
+                else:
+                    nh += 1
             else:
                 heavy += float(order)
         n_arom = sum(1 for nb in graph[node] if graph.edges[node, nb].get("order", 1) == 1.5)
